@@ -6246,14 +6246,16 @@ int32 psX509AuthenticateCert(psPool_t *pool, psX509Cert_t *subjectCert,
             }
 
             /* Iff rc == 1 we won't error */
-            if (!rc)
+            if (rc != 1)
             {
                 psTraceCrypto("Issuer does not allow keyCertSign in keyUsage\n");
                 sc->authFailFlags |= PS_CERT_AUTH_FAIL_KEY_USAGE_FLAG;
                 sc->authStatus = PS_CERT_AUTH_FAIL_EXTENSION;
             }
-            else if (rc < 0)
+            if (rc < 0)
             {
+                /* The verdict is recorded above: no failure return of this
+                   function leaves sc->authStatus at PS_FALSE */
                 psTraceCrypto("Issue date check failed\n");
                 return PS_PARSE_FAIL;
             }
